@@ -778,6 +778,10 @@ func (s *Service) updateUser(username, password string, updateAdmin, admin, upda
 			return User{}, errors.Wrap(err, "hashing password")
 		}
 		u.Hash = hash
+		// The cached credentials belong to the old password.
+		s.authMU.Lock()
+		delete(s.authCache, username)
+		s.authMU.Unlock()
 	}
 
 	if updatePrivileges {
